@@ -62,16 +62,17 @@ type line struct {
 	Dev  []json.RawMessage `json:"dev"`
 }
 
-var objNames = map[int]string{1: "PO", 2: "CO", 3: "g1", 4: "g2", 5: "s1"}
+var objNames = map[int]string{1: "PO", 2: "CO", 3: "g1", 4: "g2", 5: "s1", 6: "GO"}
 
 const prelude = jsx.Prelude + `
 var LOG = [];
 function g1(){ return 101; }
 function g2(){ return 102; }
-function s1(v){ LOG.push({f:5, "this": this===PO?1:(this===CO?2:0), v:ENC(v)}); }
-var PO = {};
+function s1(v){ LOG.push({f:5, "this": this===PO?1:(this===CO?2:(this===GO?6:0)), v:ENC(v)}); }
+var GO = {};
+var PO = Object.create(GO);
 var CO = Object.create(PO);
-OBJIDS = [[PO,1],[CO,2],[g1,3],[g2,4],[s1,5]];
+OBJIDS = [[PO,1],[CO,2],[g1,3],[g2,4],[s1,5],[GO,6]];
 var NAMES = ["p","q"];
 function OWN(o,n){
   var d = Object.getOwnPropertyDescriptor(o,n);
@@ -91,7 +92,7 @@ function OBSOBJ(o){
   return {ext:Object.isExtensible(o), sealed:Object.isSealed(o), frozen:Object.isFrozen(o),
           names:Object.getOwnPropertyNames(o).map(UNITS), keys:Object.keys(o).map(UNITS), forin:fi, pr:pr};
 }
-function OBS(){ return [OBSOBJ(PO), OBSOBJ(CO)]; }
+function OBS(){ return [OBSOBJ(PO), OBSOBJ(CO), OBSOBJ(GO)]; }
 var THR = "", RET;
 function RESULT(){ var r = JSON.stringify({thr:THR, ret:ENC(RET), log:LOG, obs:OBS()}); LOG = []; return r; }
 `
@@ -346,7 +347,7 @@ func Check(c *core.Ctx) (map[string]any, []string, error) {
 		}
 		return err
 	}
-	props := "INVARIANTS EnumOK TypeOK\nPROPERTIES NonWritableStable NonConfigurableFixed NonExtensibleNoGain FrozenIsStable InheritedAccessorGoverns\n"
+	props := "INVARIANTS EnumOK TypeOK\nPROPERTIES NonWritableStable NonConfigurableFixed NonExtensibleNoGain FrozenIsStable InheritedAccessorGoverns ChainAccessorGoverns\n"
 	base := "INIT Init\nNEXT Next\nVIEW View\nCHECK_DEADLOCK FALSE\n"
 	cfg := func(mode string, maxLen int, withProps bool) string {
 		s := fmt.Sprintf("CONSTANTS\n Mode = %q\n OpenDev = %s\n MaxLen = %d\n", mode, open, maxLen) + base
@@ -358,6 +359,17 @@ func Check(c *core.Ctx) (map[string]any, []string, error) {
 	var runErr error
 	// (1) the complete 8.12.9 decision table
 	runErr = run("table", cfg("table", 1, true), tlc.Opts{Workers: c.Workers, Timeout: 20 * time.Minute})
+	// (1b) SameValue cases (+0/-0/NaN) and three-object prototype chains
+	if runErr == nil {
+		runErr = run("samevalue", cfg("sv", 1, true), tlc.Opts{Workers: c.Workers, Timeout: 10 * time.Minute})
+	}
+	if runErr == nil {
+		d := 2
+		if c.Thorough() {
+			d = 3
+		}
+		runErr = run(fmt.Sprintf("chain-bfs-depth%d", d), cfg("chain", d, true), tlc.Opts{Workers: c.Workers, Timeout: 30 * time.Minute})
+	}
 	// (2) exhaustive histories to a depth bound
 	if runErr == nil {
 		depth := 2
@@ -396,7 +408,7 @@ func Check(c *core.Ctx) (map[string]any, []string, error) {
 		"conforming": nConform, "conforming_to_known_deviation": nDev, "non_reproducible_skipped": nSkipped,
 		"distinct_expected_observations": nDistinct,
 		"exhaustive":                    true,
-		"model_properties_checked":      []string{"NonWritableStable", "NonConfigurableFixed", "NonExtensibleNoGain", "FrozenIsStable", "InheritedAccessorGoverns", "EnumOK", "TypeOK"},
+		"model_properties_checked":      []string{"NonWritableStable", "NonConfigurableFixed", "NonExtensibleNoGain", "FrozenIsStable", "InheritedAccessorGoverns", "ChainAccessorGoverns", "EnumOK", "TypeOK"},
 	}
 	assumptions := []string{
 		"trusted: the JavaScript-side projection OBS()/ENC() in harness/internal/c07 and jsx (reflection through Object.getOwnPropertyDescriptor, getOwnPropertyNames, keys, for-in, in, isExtensible/isSealed/isFrozen) and Go float64 bit projection",
